@@ -346,6 +346,27 @@ func checkC13(p *Prog, res *Result, tier string) {
 			}) {
 				wait = ch.target
 			}
+			isJoin := func(i ssa.Instruction) bool { c, ok := i.(ssa.CallInstruction); return ok && isWGWait(c) }
+			joinWhat, joinJudged := "Wait", false
+			if wait == nil {
+				// the channel form: one report per worker, collected in a loop with no other way out
+				if rv, mks := p.workerResultRecvs(scanFn); len(rv) == 1 {
+					cj := p.analyseChanJoin(scanFn, rv[0], mks[0])
+					jc := funcName(scanFn) + ": returns only after all partition workers have finished"
+					switch {
+					case cj.bad != "":
+						res.bad("C13-R3", jc, p.pos(cj.badAt.Pos()), cj.bad+" (the scan returns, and a stream is terminated and closed, while partition workers are still producing)")
+					case cj.und != "" || cj.joinAt == nil:
+						res.und("C13-R3", jc, p.pos(rv[0].Pos()), "channel join: "+cj.und)
+					default:
+						res.ok("C13-R3", jc, p.pos(rv[0].Pos()), "channel join: every worker reports exactly once as its last action, the collecting loop runs as often as the start loop and has no other exit")
+						wait = cj.joinAt
+						isJoin = func(i ssa.Instruction) bool { return i == cj.joinAt }
+						joinWhat = "the collecting loop"
+					}
+					joinJudged = true
+				}
+			}
 			for _, ch := range scanRg.chainsIn(p, isMerge) {
 				merge = ch.target
 			}
@@ -353,11 +374,13 @@ func checkC13(p *Prog, res *Result, tier string) {
 			var early ssa.Instruction
 			if wait != nil && merge != nil {
 				early, _, _ = scanRg.search(&frame{fn: scanFn}, scanFn.Blocks[0], 0, superOpts{
-					stop: func(i ssa.Instruction, _ *frame) bool { c, ok := i.(ssa.CallInstruction); return ok && isWGWait(c) },
+					stop: func(i ssa.Instruction, _ *frame) bool { return isJoin(i) },
 					bad:  func(i ssa.Instruction, _ *frame) bool { return isMerge(i) },
 				})
 			}
 			switch {
+			case wait == nil && joinJudged:
+				// reported above
 			case wait == nil || merge == nil:
 				res.bad("C13-R3", construct, p.pos(scanFn.Pos()), "WaitGroup.Wait or the merge of the forked receivers is missing")
 			case early != nil:
@@ -379,7 +402,7 @@ func checkC13(p *Prog, res *Result, tier string) {
 					}
 				}
 				if okOrder {
-					res.ok("C13-R3", construct, p.pos(merge.Pos()), "Wait precedes the merge loop on every path, which ranges over the receiver list by ascending index")
+					res.ok("C13-R3", construct, p.pos(merge.Pos()), joinWhat+" precedes the merge loop on every path, which ranges over the receiver list by ascending index")
 				} else {
 					res.bad("C13-R3", construct, p.pos(merge.Pos()), "forked receivers are not merged in partition-index order")
 				}
@@ -669,6 +692,7 @@ func errorParamIndex(f *ssa.Function) int {
 func checkBorderContiguity(p *Prog, r *Roles, res *Result, sp *ssa.Package) {
 	startF := p.structField("pkg/storage", "Partition", "Start")
 	endF := p.structField("pkg/storage", "Partition", "End")
+	checkRegionListingUnbounded(p, r, res)
 	for _, f := range p.AllFuncs {
 		if f.Pkg != sp || f.Synthetic != "" {
 			continue
@@ -931,6 +955,11 @@ func parallelScanDriver(p *Prog, sp *ssa.Package, isWGWait func(ssa.CallInstruct
 			if isWGWait(c) {
 				h.wait = true
 			}
+			if !h.wait && h.goStmt {
+				if rv, _ := p.workerResultRecvs(f); len(rv) > 0 {
+					h.wait = true // channel form of the join
+				}
+			}
 			if sc := c.Common().StaticCallee(); sc != nil && sc.Blocks != nil && descend(sc) && d < 3 {
 				hh := scan(sc, d+1)
 				h.goStmt = h.goStmt || hh.goStmt
@@ -1029,4 +1058,38 @@ func structLiteralField(v ssa.Value, fld *types.Var) ssa.Value {
 		}
 	}
 	return nil
+}
+
+// checkRegionListingUnbounded: an adapter's GetPartitions that asks the placement driver for the regions of the
+// interval asks for all of them: the limit operand of ScanRegions is a constant <= 0 (the client's "no limit"), or the
+// call sits in a loop (paging). A positive limit in a single call truncates the partition list: the interval behind
+// the last listed region is scanned by no worker, and range, count and stream silently return a prefix.
+func checkRegionListingUnbounded(p *Prog, r *Roles, res *Result) {
+	for _, impl := range p.implsOf(r.KVGetPartitions) {
+		rg := &fnRegion{root: impl, descend: func(g *ssa.Function) bool { return g.Pkg == impl.Pkg && g.Synthetic == "" }}
+		n := 0
+		for _, ch := range rg.chainsIn(p, func(ins ssa.Instruction) bool {
+			c, ok := ins.(ssa.CallInstruction)
+			if !ok || !c.Common().IsInvoke() {
+				return false
+			}
+			m := c.Common().Method
+			return m.Name() == "ScanRegions" && m.Pkg() != nil && strings.HasSuffix(m.Pkg().Path(), "pd/client")
+		}) {
+			c := ch.target.(ssa.CallInstruction)
+			n++
+			construct := fmt.Sprintf("%s: region listing #%d is not truncated", funcName(impl), n)
+			args := c.Common().Args
+			lim := ch.up(args[len(args)-1], len(ch.fns)-1)
+			k, isConst := constInt(resolve(lim))
+			switch {
+			case isConst && k <= 0:
+				res.ok("C13-R5", construct, p.pos(c.Pos()), fmt.Sprintf("limit operand is the constant %d: all regions of the interval", k))
+			case loopOf(c.Block()) != nil:
+				res.ok("C13-R5", construct, p.pos(c.Pos()), "the listing call is repeated in a loop (paging)")
+			default:
+				res.bad("C13-R5", construct, p.pos(c.Pos()), "the regions of the interval are listed by a single call with a positive (or non-constant) limit: an interval that spans more regions gets a truncated partition list, the tail is scanned by no worker, and range, count and stream reads succeed with a prefix of the keys")
+			}
+		}
+	}
 }
